@@ -659,6 +659,13 @@ class Evaluator(object):
                 if f.attr == "items":
                     return L([L([K(k), v]) for k, v in base.items.items()])
                 return L([K(k) for k in base.items] if f.attr == "keys" else list(base.items.values()))
+        if isinstance(f, ast.Attribute) and f.attr == "popitem" and not args:
+            base = self.expr(f.value, env, fi)
+            if isinstance(base, D):
+                if not base.items:
+                    raise _Raise("KeyError")
+                k0 = list(base.items)[-1]
+                return L([K(k0), base.items.pop(k0)])
         if isinstance(f, ast.Attribute) and f.attr == "pop" and args and isinstance(args[0], K):
             base = self.expr(f.value, env, fi)
             if isinstance(base, D):
